@@ -134,3 +134,8 @@ package option
 //@   ensures {C09} o.Style == model.DstVarReturn && o.Rule == model.MatchRuleName && o.ExactCase && !o.Getter && !o.Stringer && !o.Typecast
 //@   ensures {C09} o.Receiver == "" && !o.Reverse && o.SkipFields == nil && o.NameMapper == nil && o.TemplatedNameMapper == nil
 //@   ensures {C09} o.Converters == nil && o.Literals == nil && o.PreProcess == nil && o.PostProcess == nil
+
+// ---- valid notation keys per location (C09) ------------------------------------------------------------------------
+
+//@ global ValidOpsIntf: keysAre(ValidOpsIntf, "convergen", "style", "match", "case", "case:off", "getter", "getter:off", "stringer", "stringer:off", "typecast", "typecast:off")
+//@ global ValidOpsMethod: keysAre(ValidOpsMethod, "style", "match", "case", "case:off", "getter", "getter:off", "stringer", "stringer:off", "typecast", "typecast:off", "recv", "reverse", "skip", "map", "tag", "conv", "conv:type", "conv:with", "literal", "preprocess", "postprocess")
